@@ -141,6 +141,18 @@ def gen_case(rnd, tier, index):
     if not formulas:
         return {'spec': spec, 'cfg': {'workload': 'acyclic', 'site': None}, 'ops': []}
     site = formulas[(index % SITES) % len(formulas)]
+    empties = [a for a in formulas if ':' in dag.cell[a]['f'] and '(' not in dag.cell[a]['f']
+               and 'cse' not in dag.cell[a]]
+    if empties and rnd.random() < 0.3:
+        site = rnd.choice(empties)      # =A1:A3: evaluates to its (possibly empty) top left cell
+    elif rnd.random() < 0.12:
+        # a failing cell whose result is an empty reference: "calculated, but nothing there"
+        main = next(s_ for s_ in spec['sheets'] if s_ != spec.get('data_sheet'))
+        spec['cells'].append({'a': f'{main}!A35', 'v': None})
+        spec['cells'].append({'a': f'{main}!A36', 'v': rnd.choice((2, 0.5, 'txt'))})
+        site = f'{main}!B35'
+        spec['cells'].append({'a': site, 'f': '=A35:A36', 'p': [f'{main}!A35'],
+                              'd': [f'{main}!A36']})
     mode = wrnd.choice(('plain', 'plain', 'iterative'))
     confirm_kf1 = group % 40 == 2
     if confirm_kf1:
@@ -194,6 +206,8 @@ def gen_case(rnd, tier, index):
             ops.append(ev(unrelated))
         else:
             ops.append(ev(dag.order))
+        if rnd.random() < 0.06:
+            ops.append({'op': 'recalc'})      # recalculate() of everything known, fault or not
     repair = rnd.choice(('disarm', 'overwrite', 'expire') if kind == 'boom' else ('overwrite',))
     if confirm_kf1:
         repair = 'overwrite'
@@ -406,6 +420,26 @@ def run_case(case):
                 if 'exc' in out:
                     violate('exception-in-set_value', i, op, 'set_value works', out,
                             exc=out['exc'])
+            elif k == 'recalc':
+                fired0 = plugin.STATE['fired']
+                out = driver.step(op)
+                fired = plugin.STATE['fired'] - fired0
+                count('recalculate-calls')
+                if fired:
+                    count('fault:plugin-raise', fired)
+                    phase['fired_any'] = True
+                events.append((i, 'recalc', out.get('exc'), fired))
+                sig_items.append(('recalc', 'exc' if 'exc' in out else 'ok'))
+                if 'exc' in out:
+                    live = fired > 0 if kind != 'unknown' else not phase['overwritten']
+                    if not live:
+                        violate('exception-without-fault', i, op, 'recalculate works', out,
+                                exc=out['exc'])
+                    elif not out.get('pycel'):
+                        violate('bare-internal-exception', i, op, 'a PyCelException', out,
+                                exc=out['exc'])
+                    else:
+                        count('probe:recalculate-failed-under-fault')
             elif k == 'arm':
                 plugin.arm('F', exc=op['exc'], at=op['at'], persistent=op['persistent'])
                 phase['armed'] = True
@@ -457,7 +491,7 @@ def _short(op):
         return f"arm {op['exc']} at call {op['at']} {'until disarmed' if op['persistent'] else 'once'}"
     if op['op'] == 'overwrite':
         return f"overwrite {op['a']} := {values.show(op['v'])}"
-    if op['op'] in ('disarm', 'end-faulty'):
+    if op['op'] in ('disarm', 'end-faulty', 'recalc'):
         return op['op']
     return c01._short(op)
 
